@@ -172,6 +172,9 @@ where
     /// Initialize the radio for LoRa physical layer communications
     pub async fn init(&mut self) -> Result<(), RadioError> {
         self.cold_start = true;
+        // the reset below wipes the chip: if init fails half-way, a previously prepared
+        // tx/rx/cad must not be startable on the unconfigured chip
+        self.radio_mode = RadioMode::Sleep;
         self.radio_kind.reset(&mut self.delay).await?;
         self.radio_kind.ensure_ready(self.radio_mode).await?;
         self.radio_kind.set_standby().await?;
